@@ -310,4 +310,35 @@ theorem C20_sweep_stops (c i : Nat) (l : List Ans)
 
 example : (2, false) ∈ sweep 0 0 [.unknown, .reservation, .full] := by decide
 
+
+/-- **C20 / sweep completeness, pointwise**: as long as no gap exceeds `MaxUnusedAccountKeyLookup`, the key at every
+position `j` whose answer is "full account" is recovered as such, and every "reservation only" key as a reservation. -/
+theorem C20_sweep_complete (c i : Nat) (l : List Ans) (h : NoLongGap c l) (j : Nat) :
+    (l[j]? = some Ans.full → (i + j, false) ∈ sweep c i l) ∧
+    (l[j]? = some Ans.reservation → (i + j, true) ∈ sweep c i l) := by
+  induction l generalizing c i j with
+  | nil => simp
+  | cons a r ih =>
+    cases j with
+    | zero =>
+      cases a <;> simp [sweep]
+    | succ j =>
+      have e : i + (j + 1) = (i + 1) + j := by omega
+      simp only [List.getElem?_cons_succ, e]
+      cases a with
+      | reservation =>
+        have := ih c (i + 1) h j
+        simp only [sweep, List.mem_cons]
+        exact ⟨fun x => Or.inr (this.1 x), fun x => Or.inr (this.2 x)⟩
+      | full =>
+        have := ih 0 (i + 1) h j
+        simp only [sweep, List.mem_cons]
+        exact ⟨fun x => Or.inr (this.1 x), fun x => Or.inr (this.2 x)⟩
+      | unknown =>
+        obtain ⟨h1, h2⟩ := h
+        have hn : ¬ c + 1 > Lifecycle.maxUnusedAccountKeyLookup := by omega
+        have := ih (c + 1) (i + 1) h2 j
+        simp only [sweep, hn, if_false]
+        exact this
+
 end Pool.C20
